@@ -195,7 +195,7 @@ def w_akai(pid, tier, seed, job):
         st = probe(ctx, bytes(d), "a.img", None, paths if tier != "quick" else paths[:3], case)
         # tie of the termination theorems to the code on DAMAGED input: the whole-image model (total by akai_export_total)
         # must say what the real export says - a loop in the real classes that the model's functions abstract shows up here
-        if st is not None and st[0] in ("ok", "exc") and rng3.random() < (0.06 if tier == "quick" else 0.5):
+        if st is not None and st[0] in ("ok", "exc") and rng3.random() < (0.06 if tier == "quick" else 0.1):
             compare_with_model(ctx, bytes(d), case)
     return ctx.dump()
 
